@@ -106,6 +106,12 @@ def nt_c04(tr):
     return bool(waits) and any(e[0] == 6 and e[1] in waits and e[2] in (0, 2) for e in tr) and has(tr, 8) and has(tr, 14)
 
 
+def nt_c16(tr):
+    # a parent with registered children that broadcast to them or whose task ended while it held them
+    parents = {e[1] for e in tr if e[0] == 31}
+    return bool(parents) and (has(tr, 32) or has(tr, 14, lambda e: e[1] in parents))
+
+
 PROPS = {
     "C07": {
         "families": [("restart", 1000, 25000), ("timers", 400, 10000), ("lifecycle", 200, 6000)],
@@ -190,6 +196,14 @@ PROPS = {
         "assumptions": ["'accepted before / after the stop' is judged by real-time order on the single-threaded executor: a submission whose call returned before the stop request was issued is before it; one issued after the stop call returned is after it; concurrent ones may fall either way",
                         "F9 (awaiting an Addr again after it was awaited to completion through &mut panics inside futures::Shared) is avoided by the generators and recorded as a known finding"],
     },
+    "C16": {
+        "families": [("children", 1200, 30000), ("faults", 200, 6000)],
+        "monitors": ["C03"],
+        "theorems": ["C16_child_is_held_strongly", "C16_released_only_with_parent", "C16_parent_end_releases_children", "C16_broadcast_targets"],
+        "nontrivial": nt_c16,
+        "rule": "cases generated from (family, VERIF_SEED, index): actor trees up to depth 3 built by handlers that spawn children and register them under two message types, children also held from outside, broadcasts from handlers, parent termination by stop, last drop, failure, panic and cancellation at random times; non-trivial = a parent with registered children broadcast to them or its task ended; distinct = distinct case JSON",
+        "assumptions": ["completeness of one broadcast (one submission per registered child of the type) is checked by the search acceptor on every implementation trace, not proved: the model fixes the target of the i-th submission but not the number of submissions"],
+    },
     "C14": {
         "families": [("liveness-query", 900, 25000), ("registry-liveness", 500, 12000), ("faults", 200, 6000)],
         "monitors": ["C14"],
@@ -224,6 +238,14 @@ COMMON_NOTE = ("Trusted: Coq kernel; the hand-written model's fidelity (checked 
                "No axioms. Real-thread races inside external crates and real wake-ups beyond the sampled cases are outside.")
 
 MANIFEST_TEXT = {
+    "C16": {
+        "text": "Theorems (Coq, one-step, for every state): C16_child_is_held_strongly (a child is registered through a strong Sender, which stays counted), C16_released_only_with_parent (for every event: a handle leaves the table only by its holder's drop or by the end of the task of a parent holding it as a child), "
+                "C16_parent_end_releases_children (every way the parent's task ends releases all of them), C16_broadcast_targets (the i-th submission of a send_to_children goes to the i-th child under that type: none twice, none of another type). "
+                "[partial] 'children without other handles then drain and stop gracefully, recursively' is the C04/C05 closed-mailbox path applied to each released child; completeness of a broadcast is checked by the search acceptor; both are validated by correspondence on the children family.",
+        "note": COMMON_NOTE,
+        "technique": "Rocq/Coq proof (one-step theorems over all states and events) over an executable model; correspondence by differential run of model and implementation",
+        "design_ref": "DESIGN.md section 6 C16",
+    },
     "C04": {
         "text": "Theorems (Coq): C04_announce (simulation, every accepted trace: an await by value or through &mut and a halt resolve only after the addressed task ended, Ok exactly when the task returned right after its last stopped(), Err otherwise), "
                 "C04_stop_is_a_barrier + C04_nothing_after_stop (a stop request leaves the queue as its head and the loop goes straight to finished()/stopped(); nothing is handled afterwards), C04_last_drop_drains (the closed-channel exit is taken only with an empty queue and no sender left). "
